@@ -231,3 +231,93 @@ V("c08-neutral-convert-as-method", N, "C08", None,
                 esc = conv.escape(sf)
                 return conv.quote(esc)
 """))
+
+# ---------------------------------------------------------------- C15
+V("c15-no-boundary", A, "C15", "C15.b", ("variables", 'rf"\\${name}(?!\\w)"', 'rf"\\${name}"'))
+V("c15-string-replacement", A, "C15", "C15.c", ("variables", "lambda _, v=value: v", "value"))
+V("c15-case-sensitive", A, "C15", "C15.b", ("variables", ", sql, flags=re.IGNORECASE)", ", sql)"))
+V("c15-class-level-store", A, "C15", "C15.a",
+  ("variables", "    def __init__(self) -> None:\n        self._variables = {}", "    _variables = {}\n\n    def __init__(self) -> None:\n        pass"))
+V("c15-default-dialect-value", A, "C15", "C15.g", ('variables', 'value = eq.args.get("expression").sql(dialect="snowflake")', 'value = eq.args.get("expression").sql()'))
+V("c15-undefined-returns-sql", A, ["C15", "C07"], "C07.e",
+  ("variables", """            raise snowflake.connector.errors.ProgrammingError(
+                msg=f"Session variable '{remaining_variables.group().upper()}' does not exist"
+            )""", "            pass"))
+V("c15-neutral-word-boundary", N, "C15", None, ("variables", 'rf"\\${name}(?!\\w)"', 'rf"\\${name}\\b"'))
+V("c15-neutral-def-replacement", N, "C15", None,
+  ("variables", """            sql = re.sub(rf"\\${name}(?!\\w)", lambda _, v=value: v, sql, flags=re.IGNORECASE)""",
+   """            def _value(_m, v=value):
+                return v
+
+            sql = re.sub(rf"\\${name}(?!\\w)", _value, sql, flags=re.IGNORECASE)"""))
+
+# ---------------------------------------------------------------- C16
+V("c16-also-filter-commands", A, "C16", "C16.a",
+  ("conn", "if e and not isinstance(e, exp.Semicolon)  # ignore comments", "if e and not isinstance(e, (exp.Semicolon, exp.Update))"))
+V("c16-shared-cursor", A, "C16", "C16.a",
+  ("conn", """        cursors = [
+            self.cursor(cursor_class).execute(e.sql(dialect="snowflake"))""", """        cur = self.cursor(cursor_class)
+        cursors = [
+            cur.execute(e.sql(dialect="snowflake"))"""))
+V("c16-ignore-cursor-class", A, "C16", "C16.a",
+  ("conn", 'self.cursor(cursor_class).execute(e.sql(dialect="snowflake"))', 'self.cursor().execute(e.sql(dialect="snowflake"))'))
+V("c16-swallow-errors", A, "C16", "C16.a",
+  ("conn", """        cursors = [
+            self.cursor(cursor_class).execute(e.sql(dialect="snowflake"))
+            for e in sqlglot.parse(sql_text, read="snowflake")
+            if e and not isinstance(e, exp.Semicolon)  # ignore comments
+        ]""", """        cursors = []
+        for e in sqlglot.parse(sql_text, read="snowflake"):
+            if e and not isinstance(e, exp.Semicolon):
+                try:
+                    cursors.append(self.cursor(cursor_class).execute(e.sql(dialect="snowflake")))
+                except snowflake.connector.errors.ProgrammingError:
+                    pass"""))
+V("c16-duckdb-dialect", A, "C16", "C16.a", ("conn", 'e.sql(dialect="snowflake")', 'e.sql(dialect="duckdb")'))
+V("c16-nop-search", A, "C16", "C16.b", ("cursor", "any(re.match(p, command, re.IGNORECASE)", "any(re.search(p, command, re.IGNORECASE)"))
+V("c16-nop-case-sensitive", A, "C16", "C16.b", ("cursor", "any(re.match(p, command, re.IGNORECASE)", "any(re.match(p, command)"))
+V("c16-nop-falls-through", A, "C16", "C16.b",
+  ("cursor", """                self._execute(transformed, params)
+                return self
+
+            expression = parse_one""", """                self._execute(transformed, params)
+
+            expression = parse_one"""))
+V("c16-neutral-loop", N, "C16", None,
+  ("conn", """        cursors = [
+            self.cursor(cursor_class).execute(e.sql(dialect="snowflake"))
+            for e in sqlglot.parse(sql_text, read="snowflake")
+            if e and not isinstance(e, exp.Semicolon)  # ignore comments
+        ]""", """        cursors = []
+        for e in sqlglot.parse(sql_text, read="snowflake"):
+            if not e or isinstance(e, exp.Semicolon):
+                continue
+            cursors.append(self.cursor(cursor_class).execute(e.sql(dialect="snowflake")))"""))
+
+# ---------------------------------------------------------------- C20
+V("c20-acquire-before-try", A, "C20", "C20.a",
+  ("__init__", """    stack = contextlib.ExitStack()
+
+    try:""", """    stack = contextlib.ExitStack()
+    stack.enter_context(mock.patch("snowflake.connector.connect", side_effect=fs.connect))
+    importlib.import_module("snowflake.connector.pandas_tools")
+
+    try:"""))
+V("c20-close-not-in-finally", A, "C20", "C20.a",
+  ("__init__", """        yield None
+    finally:
+        stack.close()
+        fs.duck_conn.close()""", """        yield None
+    finally:
+        pass
+    stack.close()
+    fs.duck_conn.close()"""))
+V("c20-engine-not-closed", A, "C20", "C20.a", ("__init__", "        stack.close()\n        fs.duck_conn.close()", "        stack.close()"))
+V("c20-guard-after-patching", A, "C20", "C20.b",
+  ("__init__", '    assert not isinstance(snowflake.connector.connect, mock.MagicMock), "Snowflake connector is already patched"\n', ""))
+V("c20-write-pandas-unmapped", A, "C20", "C20.c",
+  ("__init__", "        snowflake.connector.pandas_tools.write_pandas: fakes.write_pandas,\n", ""))
+V("c20-neutral-rename-stack", N, "C20", None,
+  ("__init__", "    stack = contextlib.ExitStack()", "    exit_stack = contextlib.ExitStack()"),
+  ("__init__", "            stack.enter_context(p)", "            exit_stack.enter_context(p)"),
+  ("__init__", "        stack.close()", "        exit_stack.close()"))
